@@ -1,6 +1,6 @@
 (* C05 - core evaluation: call-by-value, left-to-right, lexical scope, exact arity.
    Only statements; proofs in Eval/EvalRules.v and Eval/SemProofs.v. *)
-From PL Require Import Eval.EvalRules Eval.SemProofs.
+From PL Require Import Eval.EvalRules Eval.SemProofs Eval.ModulesPersist Eval.FuelMono.
 From Coq Require Import String.
 Local Open Scope string_scope.
 Local Open Scope list_scope.
@@ -83,3 +83,18 @@ Theorem C05_local_before_global : forall f st st' e env m d k v,
   eval_loop (S f) st e env m d = (st', ROk v).
 Proof. intros; eapply R_var_local; eassumption. Qed.
 Print Assumptions C05_local_before_global.
+
+(* the model's fuel only stands for "enough steps": what an evaluation ends in - value, signal or
+   abort - is the same for every sufficient amount of fuel, for EVERY expression, environment, module,
+   depth and state (whose current module exists); so the `exists fuel` in the theorems about programs
+   is not a choice among several behaviours.  Proved by mutual induction over the six functions. *)
+Theorem C05_result_independent_of_fuel : forall f1 f2 st e env m d st1 r1 st2 r2, cur_ok st ->
+  eval_internal f1 st e env m d = (st1, r1) -> eval_internal f2 st e env m d = (st2, r2) -> r1 <> RFuel -> r2 <> RFuel ->
+  st1 = st2 /\ r1 = r2.
+Proof. exact results_agree. Qed.
+Print Assumptions C05_result_independent_of_fuel.
+
+Theorem C05_more_fuel_same_result : forall f f' st e env m d st' r, (f <= f')%nat -> cur_ok st ->
+  eval_internal f st e env m d = (st', r) -> r <> RFuel -> eval_internal f' st e env m d = (st', r).
+Proof. exact fuel_irrelevant. Qed.
+Print Assumptions C05_more_fuel_same_result.
